@@ -54,7 +54,7 @@ add("C08",
            (U, "        if not _is_unique(inst):", "        if _is_unique(inst):"), "U4|spydrnet/uniquify.py:uniquify|guard"),
     Mutant("U4 the uniqueness test ignores the number of instances",
            (U, "    return len(instance.reference.references) == 1 or instance.reference.is_leaf()", "    return instance.reference.is_leaf()"),
-           "U4|spydrnet/uniquify.py:_is_unique|test"),
+           "U4|spydrnet/uniquify.py:uniquify|guard"),
     Mutant("twin: depth-first instead of breadth-first",
            (U, "        inst = instance_queue.popleft()", "        inst = instance_queue.pop()"), None),
     Mutant("twin: suffix fetched inline",
